@@ -142,4 +142,44 @@ theorem tableB_facts (k m d : Nat) (hk : k < 400) (hm1 : 1 ≤ m) (hm : m ≤ 12
   · omega
   · exact h'
 
+/-! ### digit layouts of the date tokens -/
+theorem digits4 (n : Nat) (h1 : 1000 ≤ n) (h2 : n < 10000) : digits n = [n/1000, n/100%10, n/10%10, n%10] := by
+  unfold digits
+  have : n + 1 = (n - 3) + 1 + 1 + 1 + 1 := by omega
+  rw [this]
+  simp only [digitsAux]
+  have a : ¬ n < 10 := by omega
+  have b : ¬ n / 10 < 10 := by omega
+  have c : ¬ n / 10 / 10 < 10 := by omega
+  have d : n / 10 / 10 / 10 < 10 := by omega
+  simp only [a, b, c, d, if_false, if_true, List.cons.injEq, and_true]
+  omega
+theorem digits_two (n : Nat) (h1 : 10 ≤ n) (h2 : n < 100) : digits n = [n/10, n%10] := by
+  unfold digits
+  have : n + 1 = (n - 1) + 1 + 1 := by omega
+  rw [this]
+  simp only [digitsAux]
+  have a : ¬ n < 10 := by omega
+  have b : n / 10 < 10 := by omega
+  simp only [a, b, if_false, if_true]
+theorem read2_padded2 (n : Nat) (h : n < 100) : read2 (padded2 n) = n := by
+  unfold padded2
+  split
+  · simp [read2]
+  · rw [digits_two n (by omega) h]; simp only [read2]; omega
+theorem read4_digits (n : Nat) (h1 : 1000 ≤ n) (h2 : n < 10000) : read4 (digits n) = n := by
+  rw [digits4 n h1 h2]; simp only [read4]; omega
+theorem read2_digits2 (n : Nat) (h : n < 100) : read2 (digits2 n) = n := by
+  simp only [digits2, read2]; omega
+
+theorem daysInMonth_le (y m : Nat) : daysInMonth y m ≤ 31 := by
+  unfold daysInMonth
+  by_cases h : (m == 2) = true
+  · simp only [h, if_true]; by_cases l : isLeap y = true <;> simp [l]
+  · rw [if_neg h]
+    by_cases l : (m == 4 || m == 6 || m == 9 || m == 11) = true
+    · rw [if_pos l]; decide
+    · rw [if_neg l]; decide
+
+
 end IronCalc.Dates
